@@ -1072,6 +1072,8 @@ def origins(prog: Program, fi: FuncInfo, expr: ast.AST | None, node: Node, _seen
         return frozenset({("const", "None")})
     if isinstance(expr, ast.Constant):
         return frozenset({("const", repr(expr.value))})
+    if isinstance(expr, ast.NamedExpr):
+        return origins(prog, fi, expr.value, node, _seen)  # (x := e) is e
     if isinstance(expr, ast.Name):
         # a variable of an enclosing comprehension: [g(child) for child in xs]  ->  child iterates over xs
         from .loader import parent as _parent
